@@ -26,7 +26,7 @@ pub const ASSUMPTIONS: &[&str] = &[
     "SLAAC is off (not in the configuration list of C03; C13 covers it); the interface keeps static addresses (the application does not apply DHCP leases), so 'one of its addresses' is well defined for the probe",
     "IFACE_MAX_ADDR_COUNT is 2 in this build: the interface owns two of {192.168.1.2/24, fe80::2/64, 2001:db8::2/64, EUI-64 link-local}",
     "802.15.4 devices are modelled with MTU 127 (classic PHY) and 2047 (802.15.4g SUN PHY); 'up to the device MTU' is read per device",
-    "on 802.15.4 the fuzz cases do not join multicast groups, because joining one makes the first poll panic without any frame (reported by part 'config'); on 802.15.4 TCP/DNS use IPv6 only",
+    "on 802.15.4 TCP/DNS use IPv6 only; multicast groups are joined in two thirds of the 802.15.4 cases (before the MLD-over-6LoWPAN fix joining one made the first poll panic)",
     "the application only performs always-legal socket calls (recv, send to the sender, close, listen/connect again, start_query, dhcp poll); a library panic inside such a call is reported as inconclusive harness error, not as a C03 violation",
     "the watchdog is the only use of wall time: 15 s for a single poll call",
     "Interface::poll_at is called between polls like every event loop does; a panic inside it is reported under its own 'poll_at:' signature (the statement names Interface::poll, but an interface whose poll_at panics cannot be driven any more)",
